@@ -566,7 +566,7 @@ class FunctionFactory(CloningFactory[Function.Element]):
                 "min",
                 "Minimum",
                 function_type,
-                min,  # because is variadiac, whereas np.min takes arrays as args
+                np.minimum,  # element-wise (builtin min cannot compare arrays)
                 arity=2,
                 precedence=p(0),
             ),
@@ -574,7 +574,7 @@ class FunctionFactory(CloningFactory[Function.Element]):
                 "max",
                 "Maximum",
                 function_type,
-                max,  # because is variadiac, whereas np.max takes arrays as args
+                np.maximum,  # element-wise (builtin max cannot compare arrays)
                 arity=2,
                 precedence=p(0),
             ),
